@@ -297,6 +297,7 @@ func (in *Interp) decide(c *Term) bool {
 	}
 	switch res {
 	case Sat:
+		noteFork(in.where())
 		in.ex.push(in.path, alt, m)
 	case Unknown:
 		in.ex.noteUnknown()
@@ -361,6 +362,7 @@ func (in *Interp) concretize(t *Term) uint64 {
 			break
 		}
 		ov := EvalU(t, m, evalCache{})
+		noteFork("concretize in " + in.where())
 		in.ex.push(in.path, Decision{dConc, ov}, m)
 		excl = append(excl, in.tt.Not(in.tt.Cmp(OpEq, t, in.tt.Const(t.W, ov))))
 	}
